@@ -36,6 +36,37 @@ Definition holds_some (s : st) (t : tid) (m : mutex) : Prop := exists e, holds s
 Definition can_acquire (s : st) (m : mutex) (excl : bool) : Prop :=
   if excl then forall t e, ~ In (t, m, e) (holders s) else forall t, ~ In (t, m, true) (holders s).
 
+(** invariant 1: an exclusive holder is the only holder of its mutex *)
+Definition excl_alone (s : st) : Prop :=
+  forall t m, In (t, m, true) (holders s) ->
+    forall u e, In (u, m, e) (holders s) -> u = t /\ e = true.
+
+Lemma eq3_true a b : eq3 a b = true <-> a = b.
+Proof.
+  destruct a as [[t m] e], b as [[t' m'] e']. unfold eq3. split.
+  - intros H. apply andb_prop in H. destruct H as [H He]. apply andb_prop in H. destruct H as [Ht Hm].
+    apply Nat.eqb_eq in Ht. apply String.eqb_eq in Hm. apply Bool.eqb_prop in He. subst. reflexivity.
+  - intros H. inversion H. subst. rewrite Nat.eqb_refl, String.eqb_refl, Bool.eqb_reflx. reflexivity.
+Qed.
+
+Lemma in_remove1 a b l : In a (remove1 b l) -> In a l.
+Proof.
+  induction l as [|c r IH]; cbn [remove1]; [tauto|].
+  destruct (eq3 b c); intros H; [right; exact H|].
+  destruct H as [H|H]; [left; exact H|right; apply IH; exact H].
+Qed.
+
+Lemma in_remove1_other a b l : In a l -> a <> b -> In a (remove1 b l).
+Proof.
+  induction l as [|c r IH]; cbn [remove1]; [tauto|].
+  intros [H|H] Hne.
+  - subst c. destruct (eq3 b a) eqn:E; [apply eq3_true in E; congruence|left; reflexivity].
+  - destruct (eq3 b c); [exact H|right; apply IH; assumption].
+Qed.
+
+Lemma init_excl_alone : excl_alone init.
+Proof. intros t m H. destruct H. Qed.
+
 Section Discipline.
 (** the guard of a location, if it has one *)
 Variable guard : loc -> option mutex.
@@ -65,40 +96,12 @@ Inductive reach : st -> Prop :=
 Definition race (s : st) (x : loc) : Prop :=
   exists t u w w', t <> u /\ In (t, x, w) (active s) /\ In (u, x, w') (active s) /\ (w = true \/ w' = true).
 
-(** invariant 1: an exclusive holder is the only holder of its mutex *)
-Definition excl_alone (s : st) : Prop :=
-  forall t m, In (t, m, true) (holders s) ->
-    forall u e, In (u, m, e) (holders s) -> u = t /\ e = true.
 
 (** invariant 2: whoever is inside an access to a guarded location holds its guard in the required mode *)
 Definition active_guarded (s : st) : Prop :=
   forall t x w, In (t, x, w) (active s) -> access_allowed s t x w.
 
-Lemma eq3_true a b : eq3 a b = true <-> a = b.
-Proof.
-  destruct a as [[t m] e], b as [[t' m'] e']. unfold eq3. split.
-  - intros H. apply andb_prop in H. destruct H as [H He]. apply andb_prop in H. destruct H as [Ht Hm].
-    apply Nat.eqb_eq in Ht. apply String.eqb_eq in Hm. apply Bool.eqb_prop in He. subst. reflexivity.
-  - intros H. inversion H. subst. rewrite Nat.eqb_refl, String.eqb_refl, Bool.eqb_reflx. reflexivity.
-Qed.
 
-Lemma in_remove1 a b l : In a (remove1 b l) -> In a l.
-Proof.
-  induction l as [|c r IH]; cbn [remove1]; [tauto|].
-  destruct (eq3 b c); intros H; [right; exact H|].
-  destruct H as [H|H]; [left; exact H|right; apply IH; exact H].
-Qed.
-
-Lemma in_remove1_other a b l : In a l -> a <> b -> In a (remove1 b l).
-Proof.
-  induction l as [|c r IH]; cbn [remove1]; [tauto|].
-  intros [H|H] Hne.
-  - subst c. destruct (eq3 b a) eqn:E; [apply eq3_true in E; congruence|left; reflexivity].
-  - destruct (eq3 b c); [exact H|right; apply IH; assumption].
-Qed.
-
-Lemma init_excl_alone : excl_alone init.
-Proof. intros t m H. destruct H. Qed.
 
 Lemma init_active_guarded : active_guarded init.
 Proof. intros t x w H. destruct H. Qed.
@@ -163,6 +166,177 @@ Proof.
 Qed.
 
 End Discipline.
+
+(** Second discipline (the "Owner" exemption of the access table): all writes to a location are made by one thread,
+    its owner, under the guard held exclusively; every other thread accesses it under the guard; the owner may read its
+    own location without the lock.  Still no race: a race needs a write, hence the owner inside a write holding the
+    guard exclusively, which excludes the other thread's access. *)
+Section Owner.
+Variable owner : loc -> option (tid * mutex).
+
+Definition owner_allowed (s : st) (t : tid) (x : loc) (w : bool) : Prop :=
+  match owner x with
+  | None => True
+  | Some (t0, m) =>
+      if w then t = t0 /\ holds s t m true
+      else t = t0 \/ holds_some s t m
+  end.
+
+Inductive ostep : st -> ev -> st -> Prop :=
+| OAcq s t m e : can_acquire s m e ->
+    ostep s (Acq t m e) {| holders := (t, m, e) :: holders s; active := active s |}
+| ORel s t m e : holds s t m e -> (forall x w, ~ In (t, x, w) (active s)) ->
+    ostep s (Rel t m e) {| holders := remove1 (t, m, e) (holders s); active := active s |}
+| OBeg s t x w : owner_allowed s t x w ->
+    ostep s (Beg t x w) {| holders := holders s; active := (t, x, w) :: active s |}
+| OEnd s t x w : In (t, x, w) (active s) ->
+    ostep s (End t x w) {| holders := holders s; active := remove1 (t, x, w) (active s) |}.
+
+Inductive oreach : st -> Prop :=
+| ORInit : oreach init
+| ORStep s e s' : oreach s -> ostep s e s' -> oreach s'.
+
+Definition oactive_ok (s : st) : Prop := forall t x w, In (t, x, w) (active s) -> owner_allowed s t x w.
+
+Lemma oallowed_mono s s' t x w :
+  (forall m e, In (t, m, e) (holders s) -> In (t, m, e) (holders s')) -> owner_allowed s t x w -> owner_allowed s' t x w.
+Proof.
+  intros Hsub. unfold owner_allowed, holds_some, holds. destruct (owner x) as [[t0 m]|]; [|tauto].
+  destruct w.
+  - intros [E H]. split; [exact E|apply Hsub; exact H].
+  - intros [E|[e He]]; [left; exact E|right; exists e; apply Hsub; exact He].
+Qed.
+
+Lemma ostep_excl_alone s e s' : excl_alone s -> ostep s e s' -> excl_alone s'.
+Proof.
+  intros I H. destruct H as [s t m ex Hc|s t m ex Hh Hna|s t x w Ha|s t x w Hin]; unfold excl_alone in *; cbn [holders].
+  - intros t0 m0 [H0|H0] u e0 [H1|H1].
+    + inversion H0; inversion H1; subst. split; reflexivity.
+    + inversion H0; subst. unfold can_acquire in Hc. exfalso. exact (Hc u e0 H1).
+    + inversion H1; subst. exfalso. unfold can_acquire in Hc. destruct e0.
+      * exact (Hc t0 true H0).
+      * exact (Hc t0 H0).
+    + exact (I t0 m0 H0 u e0 H1).
+  - intros t0 m0 H0 u e0 H1. apply in_remove1 in H0. apply in_remove1 in H1. exact (I t0 m0 H0 u e0 H1).
+  - exact I.
+  - exact I.
+Qed.
+
+Lemma ostep_active_ok s e s' : oactive_ok s -> ostep s e s' -> oactive_ok s'.
+Proof.
+  intros I H. destruct H as [s t m ex Hc|s t m ex Hh Hna|s t x w Ha|s t x w Hin]; unfold oactive_ok in *; cbn [active].
+  - intros t0 x w H0. eapply oallowed_mono; [|exact (I t0 x w H0)]. cbn [holders]. intros m0 e0 Hin. right. exact Hin.
+  - intros t0 x w H0. assert (Hne : t0 <> t) by (intros ->; exact (Hna x w H0)).
+    eapply oallowed_mono; [|exact (I t0 x w H0)]. cbn [holders]. intros m0 e0 Hin.
+    apply in_remove1_other; [exact Hin|]. intros E. inversion E. congruence.
+  - intros t0 x0 w0 [H0|H0].
+    + inversion H0; subst. eapply oallowed_mono; [|exact Ha]. cbn [holders]. tauto.
+    + eapply oallowed_mono; [|exact (I t0 x0 w0 H0)]. cbn [holders]. tauto.
+  - intros t0 x0 w0 H0. apply in_remove1 in H0. eapply oallowed_mono; [|exact (I t0 x0 w0 H0)]. cbn [holders]. tauto.
+Qed.
+
+Lemma oreach_invariants s : oreach s -> excl_alone s /\ oactive_ok s.
+Proof.
+  induction 1 as [|s e s' Hr [I1 I2] Hs].
+  - split; [exact init_excl_alone|intros t x w H; destruct H].
+  - split; [eapply ostep_excl_alone; eassumption|eapply ostep_active_ok; eassumption].
+Qed.
+
+Theorem owner_discipline_no_race s x t0 m : oreach s -> owner x = Some (t0, m) -> ~ race s x.
+Proof.
+  intros Hr Ho [t [u [w [w' [Hne [Ht [Hu Hw]]]]]]].
+  destruct (oreach_invariants s Hr) as [I1 I2].
+  pose proof (I2 t x w Ht) as At. pose proof (I2 u x w' Hu) as Au.
+  unfold owner_allowed in At, Au. rewrite Ho in At, Au.
+  destruct Hw as [-> | ->].
+  - (* t writes: t is the owner and holds m exclusively; u is not the owner, so it holds m in some mode *)
+    destruct At as [Et Hm]. subst t.
+    assert (Hu' : exists e, In (u, m, e) (holders s)).
+    { destruct w'; [destruct Au as [E _]; congruence|destruct Au as [E|[e He]]; [congruence|exists e; exact He]]. }
+    destruct Hu' as [e He]. destruct (I1 t0 m Hm u e He) as [E _]. congruence.
+  - destruct Au as [Eu Hm]. subst u.
+    assert (Ht' : exists e, In (t, m, e) (holders s)).
+    { destruct w; [destruct At as [E _]; congruence|destruct At as [E|[e He]]; [congruence|exists e; exact He]]. }
+    destruct Ht' as [e He]. destruct (I1 t0 m Hm t e He) as [E _]. congruence.
+Qed.
+
+End Owner.
+
+(** Third discipline (the "unwritten" verdict of the access table, and construction before publication): a location is
+    written only while a single thread -- its creator -- can reach it; once it has been published (any other thread may
+    access it) nobody writes it any more.  [published x] is part of the state: it is set by the creator's Pub event and
+    never reset. *)
+Section Publication.
+Variable creator : loc -> option tid.     (* the locations under this discipline, with the thread that creates them *)
+
+Record pst := { base : st; published : list loc }.
+
+Definition is_pub (s : pst) (x : loc) : bool := existsb (String.eqb x) (published s).
+
+Definition pub_allowed (s : pst) (t : tid) (x : loc) (w : bool) : Prop :=
+  match creator x with
+  | None => True
+  | Some t0 => if is_pub s x then w = false else t = t0
+  end.
+
+Inductive pev := PBeg (t : tid) (x : loc) (w : bool) | PEnd (t : tid) (x : loc) (w : bool) | Pub (t : tid) (x : loc).
+
+Inductive pstep : pst -> pev -> pst -> Prop :=
+| PSBeg s t x w : pub_allowed s t x w ->
+    pstep s (PBeg t x w) {| base := {| holders := holders (base s); active := (t, x, w) :: active (base s) |}; published := published s |}
+| PSEnd s t x w : In (t, x, w) (active (base s)) ->
+    pstep s (PEnd t x w) {| base := {| holders := holders (base s); active := remove1 (t, x, w) (active (base s)) |}; published := published s |}
+| PSPub s t x : creator x = Some t -> (forall w, ~ In (t, x, w) (active (base s))) ->
+    (* the creator publishes the location when it is not in the middle of an access to it *)
+    pstep s (Pub t x) {| base := base s; published := x :: published s |}.
+
+Inductive preach : pst -> Prop :=
+| PRInit : preach {| base := init; published := [] |}
+| PRStep s e s' : preach s -> pstep s e s' -> preach s'.
+
+(** invariant: before publication only the creator is inside accesses; after it only reads are in progress *)
+Definition pub_inv (s : pst) : Prop :=
+  forall t x w, In (t, x, w) (active (base s)) ->
+    match creator x with
+    | None => True
+    | Some t0 => if is_pub s x then w = false else t = t0
+    end.
+
+Lemma is_pub_cons s x y : is_pub {| base := base s; published := y :: published s |} x = (String.eqb x y || is_pub s x)%bool.
+Proof. reflexivity. Qed.
+
+Lemma pstep_inv s e s' : pub_inv s -> pstep s e s' -> pub_inv s'.
+Proof.
+  intros I H. destruct H as [s t x w Ha|s t x w Hin|s t x Hc Hna]; unfold pub_inv in *; cbn [base active].
+  - intros t0 x0 w0 [H0|H0].
+    + inversion H0; subst. exact Ha.
+    + exact (I t0 x0 w0 H0).
+  - intros t0 x0 w0 H0. apply in_remove1 in H0. exact (I t0 x0 w0 H0).
+  - intros t0 x0 w0 H0. specialize (I t0 x0 w0 H0). destruct (creator x0) as [c|] eqn:Ec; [|exact I].
+    rewrite is_pub_cons. destruct (String.eqb x0 x) eqn:E.
+    + (* the location being published: nobody but the creator was inside, and the creator is not *)
+      apply String.eqb_eq in E. subst x0. cbn [orb].
+      destruct (is_pub s x); [exact I|]. subst t0. rewrite Hc in Ec. inversion Ec. subst c.
+      exfalso. exact (Hna w0 H0).
+    + cbn [orb]. exact I.
+Qed.
+
+Lemma preach_inv s : preach s -> pub_inv s.
+Proof.
+  induction 1 as [|s e s' Hr I Hs]; [intros t x w H; destruct H|eapply pstep_inv; eassumption].
+Qed.
+
+Theorem publication_no_race s x t0 : preach s -> creator x = Some t0 -> ~ race (base s) x.
+Proof.
+  intros Hr Hc [t [u [w [w' [Hne [Ht [Hu Hw]]]]]]].
+  pose proof (preach_inv s Hr) as I.
+  pose proof (I t x w Ht) as At. pose proof (I u x w' Hu) as Au. rewrite Hc in At, Au.
+  destruct (is_pub s x).
+  - destruct Hw; congruence.
+  - congruence.
+Qed.
+
+End Publication.
 
 Open Scope string_scope.
 
